@@ -255,10 +255,15 @@ func c20Check(nodes []*c20Node, atRoot bool) (survivors int) {
 			case strings.HasSuffix(n.name, GeneratedFileSuffix):
 				verif.Assert(n.gone, "a generated file survived cleaning")
 			case n.name == c20Manifest:
+				// the manifest is the generator's own file wherever it lies (with a
+				// package root it is written below the output directory): it is
+				// removed at every level, otherwise the directories above it survive
+				// and the next generation cannot rewrite the read-only file
 				if atRoot {
 					verif.Assert(n.gone, "the manifest survived cleaning")
+				} else {
+					verif.Assert(n.gone, "a manifest below the target directory survived cleaning")
 				}
-				// a manifest-named file below the root: either outcome accepted
 			default:
 				verif.Assert(!n.gone, "a file the generator does not own was removed: "+n.name)
 			}
